@@ -399,6 +399,7 @@ pub fn contexts() -> Vec<Ctx> {
         ("item", "- ‹M›"),
         ("content_ml", "#g[\n  ‹B›\n]"),
         ("nested_code", "#{\n  if c {\n    ‹S›\n  }\n}"),
+        ("nested_code3", "#{\n  if c {\n    g(\n      ‹A›,\n    )\n  }\n}"),
         ("math_hash", "$#‹E›$"),
         ("heading", "= ‹M›"),
         ("strong", "*‹M›*"),
@@ -428,6 +429,8 @@ pub enum Size {
     AllMid,
     /// the first atom is ~130 chars
     Long,
+    /// the LAST atom is ~45 chars (short callee / long arguments)
+    Tail,
 }
 
 impl Size {
@@ -437,6 +440,7 @@ impl Size {
             Size::Medium => "m",
             Size::AllMid => "a",
             Size::Long => "l",
+            Size::Tail => "t",
         }
     }
 }
@@ -447,7 +451,7 @@ const X_SHORT: [&str; 6] = ["x", "y", "z", "u", "v", "w"];
 const P_SHORT: [&str; 6] = ["p", "q", "p2", "q2", "p3", "q3"];
 const R_SHORT: [&str; 6] = ["r", "s", "r2", "s2", "r3", "s3"];
 
-fn atom(sort: Sort, idx: usize, size: Size) -> String {
+fn atom(sort: Sort, idx: usize, size: Size, is_last: bool) -> String {
     let i = idx % 6;
     let long_first = |short: &str, n: usize, sep: &str, math: bool| -> String {
         // build an atom of about n chars that starts with `short`
@@ -482,6 +486,13 @@ fn atom(sort: Sort, idx: usize, size: Size) -> String {
         Size::Long => {
             if idx == 0 {
                 long_first(short, 130, sep, sort == Sort::X)
+            } else {
+                short.to_string()
+            }
+        }
+        Size::Tail => {
+            if is_last {
+                long_first(short, 45, sep, sort == Sort::X)
             } else {
                 short.to_string()
             }
@@ -579,8 +590,23 @@ impl Model {
 
     /// Instantiate a skeleton to source text.
     pub fn instantiate(&self, sk: &Skeleton) -> String {
+        if sk.size == Size::Tail {
+            // dry run to learn how many atoms there are; the last one becomes the long one
+            let mut c = [0usize; 8];
+            let dry = Skeleton { size: Size::Short, ..sk.clone() };
+            let _ = self.instantiate_with(&dry, &mut c);
+            let total: usize = c[..5].iter().sum();
+            let mut counter = [0usize; 8];
+            counter[7] = total; // slot 7: total number of atoms (0 = unknown)
+            return self.instantiate_with(sk, &mut counter);
+        }
         let mut counter = [0usize; 8];
-        let inner = self.inst_level(sk, 0, &mut counter);
+        self.instantiate_with(sk, &mut counter)
+    }
+
+    fn instantiate_with(&self, sk: &Skeleton, counter: &mut [usize; 8]) -> String {
+        let counter: &mut [usize; 8] = counter;
+        let inner = self.inst_level(sk, 0, counter);
         let ctx = &self.ctxs[sk.ctx];
         let mut out = String::new();
         for seg in &ctx.segs {
@@ -589,7 +615,7 @@ impl Model {
                 Seg::Hole(h) => {
                     let filler = match &inner {
                         Some(t) => t.clone(),
-                        None => self.atom_for(*h, sk.size, &mut counter),
+                        None => self.atom_for(*h, sk.size, counter),
                     };
                     push_indented(&mut out, &filler);
                 }
@@ -608,7 +634,9 @@ impl Model {
         };
         let idx = counter[slot];
         counter[slot] += 1;
-        atom(h, idx, size)
+        counter[6] += 1; // slot 6: atoms placed so far (all sorts)
+        let is_last = counter[7] > 0 && counter[6] == counter[7];
+        atom(h, idx, size, is_last)
     }
 
     fn inst_level(&self, sk: &Skeleton, level: usize, counter: &mut [usize; 8]) -> Option<String> {
@@ -689,6 +717,14 @@ pub const FORMS: &[Form] = &[
     Form { name: "lc_lc", text: "//c1\n//c2\n" },
     Form { name: "bc_bc", text: "/*c1*//*c2*/" },
     Form { name: "nl_bc_nl", text: "\n/*c1*/\n" },
+    Form { name: "nl_sp12", text: "\n            " },
+    Form { name: "bc_ws_line", text: "/*c1\n    d\n  \n    e*/" },
+    Form { name: "bc_blank", text: "/*c1\n\n    d*/" },
+    Form { name: "bc_tab", text: "/*c1\n\td\n  e*/" },
+    Form { name: "bc_uni", text: "/*c1\n\u{3000}d\n\u{a0} e*/" },
+    Form { name: "off_tight", text: "/*@typstyle off*/" },
+    Form { name: "off_reason", text: "// @typstyle off: aligned by hand\n" },
+    Form { name: "off_mid", text: "/* keep, @typstyle off, please */" },
     Form { name: "off_bc", text: "/* @typstyle off */" },
     Form { name: "off_lc", text: "// @typstyle off\n" },
 ];
@@ -702,10 +738,13 @@ pub fn forms(names: &[&str]) -> Vec<Form> {
 }
 
 pub const FORMS_WS: &[&str] = &["none", "sp", "sp2", "tab", "nl", "nl2", "nl4", "nl_sp", "crlf", "cr", "ls"];
-pub const FORMS_COMMENT: &[&str] = &["bc", "bc_sp", "lc", "lc_sp", "nl_lc", "bc_ml", "bc_star", "lc_lc", "bc_bc", "nl_bc_nl", "off_bc", "off_lc"];
+pub const FORMS_COMMENT: &[&str] = &[
+    "bc", "bc_sp", "lc", "lc_sp", "nl_lc", "bc_ml", "bc_star", "lc_lc", "bc_bc", "nl_bc_nl", "off_bc", "off_lc", "bc_ws_line", "bc_blank", "bc_tab", "bc_uni",
+];
+pub const FORMS_DIRECTIVE: &[&str] = &["off_bc", "off_lc", "off_tight", "off_reason", "off_mid"];
 pub const FORMS_ALL: &[&str] = &[
     "none", "sp", "sp2", "tab", "nl", "nl2", "nl4", "nl_sp", "crlf", "cr", "ls", "bc", "bc_sp", "lc", "lc_sp", "nl_lc",
-    "bc_ml", "bc_star", "lc_lc", "bc_bc", "nl_bc_nl", "off_bc", "off_lc",
+    "bc_ml", "bc_star", "lc_lc", "bc_bc", "nl_bc_nl", "off_bc", "off_lc", "nl_sp12", "bc_ws_line", "bc_blank", "bc_tab", "bc_uni",
 ];
 pub const FORMS_QUICK: &[&str] = &["nl", "lc", "bc", "none", "nl2", "sp", "nl_lc", "bc_ml", "lc_sp", "bc_sp", "nl4", "cr"];
 
